@@ -19,7 +19,7 @@ import (
 
 func init() {
 	vc.Register(&vc.Check{ID: "C02", Level: "model_checking", Run: run, Replay: replay, QuickSec: 150, ThoroSec: 900,
-		Rule:   "(1) explicit enumeration of the COMPLETE finite product of per-step session outcomes: PassiveAuthResult {nil, failed early, failed in the SOD chain, failed in CardSecurity after the SOD chain verified, success} x CardSecurity chain present {no, yes} x {AA, PACE-CAM, CA} each {absent, failed, succeeded} x completeness {ok, error} = 540 real Session values; Summary() and VerifiedChipAuthStatus() evaluated on every one against the statement's implications written independently. (2) Document.Verify over the complete product {DG14 stored, SOD lists 14, DG15 stored, SOD lists 15, CardAccess {absent, contained in DG14, not contained}} x every permutation of the SOD's hash list (a SEQUENCE OF without prescribed order). (3) end-to-end hostile chip personalities through Reader.ReadDocument AND through ToCbor -> Verifier.Verify: clone without the CA / AA / CAM private key, clone with substituted DG14 / DG15 / CardSecurity key pair (its own protocol run succeeds), DG14 or DG15 withheld though listed (hash list ascending, descending, withheld entry first), everything issued by a CSCA outside the trust store, CardAccess extended so that it is not contained in DG14 - x access control {BAC, PACE-GM, PACE-CAM}. states = outcome tuples + hostile scenarios, transitions = step outcomes evaluated / exchanges; distinct_nontrivial = distinct (tuple | scenario, verdict)",
+		Rule:   "(1) explicit enumeration of the COMPLETE finite product of per-step session outcomes: PassiveAuthResult {nil, failed early, failed in the SOD chain, failed in CardSecurity after the SOD chain verified, success} x CardSecurity chain present {no, yes} x {AA, PACE-CAM, CA} each {absent, failed, succeeded} x completeness {passed, failed, never run although the document is incomplete} = 810 real Session values; Summary() and VerifiedChipAuthStatus() evaluated on every one against the statement's implications written independently. (2) Document.Verify over the complete product {DG14 stored, SOD lists 14, DG15 stored, SOD lists 15, CardAccess {absent, contained in DG14, not contained}} x every permutation of the SOD's hash list (a SEQUENCE OF without prescribed order). (3) end-to-end hostile chip personalities through Reader.ReadDocument AND through ToCbor -> Verifier.Verify: clone without the CA / AA / CAM private key, clone with substituted DG14 / DG15 / CardSecurity key pair (its own protocol run succeeds), DG14 or DG15 withheld though listed (hash list ascending, descending, withheld entry first), everything issued by a CSCA outside the trust store, CardAccess extended so that it is not contained in DG14 - x access control {BAC, PACE-GM, PACE-CAM}. states = outcome tuples + hostile scenarios, transitions = step outcomes evaluated / exchanges; distinct_nontrivial = distinct (tuple | scenario, verdict)",
 		Assume: []string{"a clone that copies genuine files may legitimately yield DataTrusted (the data IS genuine); the statement's claim for clones is about the chip-authentic verdict"}})
 }
 
@@ -89,14 +89,41 @@ const (
 
 type tuple struct{ PA, CardSec, AA, CAM, CA, VErr int }
 
+// incompleteDoc is a genuinely issued document from which DG15 (listed in its security object) was withheld:
+// Document.Verify fails on it. Used for the third value of the completeness dimension: the check was never RUN
+// (DocumentVerifyErr nil) although the document is in fact incomplete.
+var incompleteDoc = func() *document.Document {
+	p := perso.Build(perso.Config{BAC: true, DGs: []int{2}, AA: &perso.AASpec{RSABits: 1024, Trailer: "BC"}})
+	d := &document.Document{}
+	for _, n := range []int{1, 2} {
+		if err := d.NewDG(n, p.Files[n]); err != nil {
+			panic(err)
+		}
+	}
+	var err error
+	if d.Mf.Lds1.Sod, err = document.NewSOD(p.Files[0x1D]); err != nil {
+		panic(err)
+	}
+	if d.Verify() == nil {
+		panic("c02: the incomplete document passes Document.Verify")
+	}
+	return d
+}
+
 func checkTuple(t tuple) (key, what, sig string) {
 	d := &document.DocumentEx{Session: buildSession(t.PA, t.CardSec, t.AA, t.CAM, t.CA, t.VErr)}
+	if t.VErr == 2 {
+		d.Document = *incompleteDoc()
+	}
 	var sum *document.DocumentSummary
 	var st document.ChipAuthStatus
 	if pv, _ := vc.Guard(func() { sum = d.Summary(); st = d.Session.VerifiedChipAuthStatus() }); pv != nil {
 		return "panic/summary", fmt.Sprintf("Summary panicked on %+v: %v", t, pv), ""
 	}
 	sig = fmt.Sprintf("trusted=%v/auth=%s", sum.DataTrusted, sum.ChipAuthenticity)
+	if sum.DataTrusted && t.PA == paOK && t.VErr == 2 {
+		return "trusted-although-completeness-check-never-ran", fmt.Sprintf("DataTrusted for outcome tuple %+v: passive authentication succeeded, Document.Verify was never run on a document that withholds a listed DG15", t), sig
+	}
 	if sum.DataTrusted && !(t.PA == paOK && t.VErr == 0) {
 		return "trusted-without-pa-or-completeness", fmt.Sprintf("DataTrusted for outcome tuple %+v", t), sig
 	}
@@ -470,13 +497,13 @@ func run(c *vc.Ctx) {
 		return
 	}
 	sec1 := "(1) complete product of step outcomes"
-	c.SecBound(sec1, "5 x 2 x 3 x 3 x 3 x 2 = 540 Session values")
+	c.SecBound(sec1, "5 x 2 x 3 x 3 x 3 x 3 = 810 Session values (completeness: passed / failed / never run on an incomplete document)")
 	for pa := 0; pa < paCount; pa++ {
 		for cs := 0; cs < 2; cs++ {
 			for aa := 0; aa < 3; aa++ {
 				for cam := 0; cam < 3; cam++ {
 					for ca := 0; ca < 3; ca++ {
-						for ve := 0; ve < 2; ve++ {
+						for ve := 0; ve < 3; ve++ {
 							if !c.Mine() {
 								continue
 							}
